@@ -132,6 +132,7 @@ type Conn struct {
 	wrWait   chan struct{}
 
 	deadReads int
+	zeroReads int
 
 	Writes    []WriteRec
 	Deadlines []DeadlineRec
@@ -441,6 +442,9 @@ func (c *Conn) Read(b []byte) (int, error) {
 		s.Park(c.node, c.name+":r")
 		s.Lock()
 		c.ReadCalls++
+		if len(b) > 0 {
+			c.zeroReads = 0
+		}
 		p := c.in
 		p.checkImmediateFaults()
 		var n int
@@ -463,6 +467,15 @@ func (c *Conn) Read(b []byte) (int, error) {
 			s.LogLocked("fault", p.name+" "+tempRead.Kind+"@"+strconv.FormatInt(tempRead.Offset, 10))
 			err = timeoutErr("read")
 		case len(b) == 0:
+			// a zero-length read returns at once; a caller that keeps issuing
+			// them consumes no input and lets no time pass: a busy loop
+			c.zeroReads++
+			if c.zeroReads == SpinThreshold {
+				s.LogLocked("read", c.name+" zero-length x"+strconv.Itoa(c.zeroReads))
+				s.Unlock()
+				s.Violate("spin/zero-length-reads", fmt.Sprintf("%s: Read has been called with an empty buffer %d times in a row; the caller consumes no input and lets no time pass (busy loop)", c.name, c.zeroReads))
+				return 0, nil
+			}
 		case len(p.readable) > 0:
 			n = len(p.readable)
 			if n > len(b) {
